@@ -22,7 +22,10 @@
 // out-file, per case:
 //   M <echo> | L=<read latency used> abits=<address pin width> init=<w0,w1,..> (declared contents, MSB first, X = undefined)
 //   p A <a..> W <en din ..> O <out..>     the cycle(s) executed with the idle inputs while leaving reset (outputs informative)
-//   c A <a..> W <en din ..> O <out..>     one line per clock cycle: pin values of the cycle, read data pins sampled at its end
+//   c A <a..> W <en din ..> O <out..> [P <addr>:<enable>:<wrEnable> ..]
+//                                          one line per clock cycle: pin values of the cycle, read data pins sampled at its end;
+//                                          P (pp=1, ordered memories): the values driving every write port of the memory after
+//                                          postprocessing (hardware has no commit order: collisions must be resolved by logic)
 //   E <id>                                 case complete      |   X <id> <what>   exception from the library
 // For V ports the W group carries <en&> <din> <en2>; for E ports the address group is followed by G <en..> (one per E port).
 #include "vh.h"
@@ -221,6 +224,16 @@ void runCase(const Case &cs, std::ostream &out)
 
 	if (pp) design.postprocess();
 
+	// physical write ports of the user's memory after postprocessing: their address / enable drivers are
+	// logged so that the check can see whether write collisions were resolved by logic (hardware has
+	// no commit order) rather than by the simulator's node order
+	std::vector<hlim::Node_MemPort*> physWr;
+	if (pp && !nc)
+		for (auto &n : design.getCircuit().getNodes())
+			if (auto *mp = dynamic_cast<hlim::Node_MemPort*>(n.get()))
+				if (mp->isWritePort() && mp->getMemory() == mem.node())
+					physWr.push_back(mp);
+
 	// ------------------------------------------------------------------ stimulus
 	vh::Rng rng(cs.num("seed", 1) * 1000003ull + 17);
 	std::vector<Stim> stim;
@@ -306,6 +319,17 @@ void runCase(const Case &cs, std::ostream &out)
 		for (size_t i = 0; i < st.wr.size(); i++) { o << " " << st.wr[i][0] << " " << st.wr[i][1]; if (wrPins[i].hasEn2) o << " " << st.wr[i][2]; }
 		o << " O";
 		for (auto &q : rdOut) o << " " << vh::bits(simu(q).eval());
+		if (!physWr.empty()) {
+			o << " P";
+			for (auto *mp : physWr) {
+				auto a = mp->getDriver((size_t)hlim::Node_MemPort::Inputs::address);
+				auto e = mp->getDriver((size_t)hlim::Node_MemPort::Inputs::enable);
+				auto we = mp->getDriver((size_t)hlim::Node_MemPort::Inputs::wrEnable);
+				o << " " << (a.node ? vh::bits(s.getValueOfOutput(a)) : std::string("-"))
+				  << ":" << (e.node ? vh::bits(s.getValueOfOutput(e)) : std::string("1"))
+				  << ":" << (we.node ? vh::bits(s.getValueOfOutput(we)) : std::string("1"));
+			}
+		}
 		lines.push_back(o.str());
 	};
 	Stim idle;
